@@ -3,15 +3,35 @@
 let bytes_of_str (s : string) : n list = List.init (String.length s) (fun i -> n_of_int (Char.code s.[i]))
 let str_of_bytes (l : n list) : string = String.concat "" (List.map (fun x -> String.make 1 (Char.chr (int_of_n x land 255))) l)
 
+let type_of (s : string) : vtype =
+  match s with
+  | "s" -> TString
+  | "i8" -> TInt I8 | "i16" -> TInt I16 | "i32" -> TInt I32 | "i64" -> TInt I64
+  | "u8" -> TInt U8 | "u16" -> TInt U16 | "u32" -> TInt U32 | "u64" -> TInt U64
+  | "b" -> TBool
+  | _ ->
+      if String.length s >= 1 && s.[0] = 'e' then
+        TEnum (List.map unhex (String.split_on_char '.' (String.sub s 1 (String.length s - 1))))
+      else failwith "type"
+let str_of_type (t : vtype) : string =
+  match t with
+  | TString -> "s"
+  | TInt I8 -> "i8" | TInt I16 -> "i16" | TInt I32 -> "i32" | TInt I64 -> "i64"
+  | TInt U8 -> "u8" | TInt U16 -> "u16" | TInt U32 -> "u32" | TInt U64 -> "u64"
+  | TBool -> "b"
+  | TEnum l -> "e" ^ String.concat "." (List.map hex l)
+
 let kind_of (s : string) : pkind =
+  match String.split_on_char '~' s with
+  | ["f0"; t] -> KLeaf (false, type_of t)
+  | ["f1"; t] -> KLeaf (true, type_of t)
+  | ["T0"; t] -> KLeafList (false, type_of t)
+  | ["T1"; t] -> KLeafList (true, type_of t)
+  | _ ->
   match s with
   | "c0" -> KCont false
   | "c1" -> KCont true
   | "a" -> KAny
-  | "f0" -> KLeaf false
-  | "f1" -> KLeaf true
-  | "T0" -> KLeafList false
-  | "T1" -> KLeafList true
   | "L00" -> KList (false, false)
   | "L01" -> KList (false, true)
   | "L10" -> KList (true, false)
@@ -22,8 +42,8 @@ let str_of_kind (k : pkind) : string =
   match k with
   | KCont x -> "c" ^ b x
   | KAny -> "a"
-  | KLeaf x -> "f" ^ b x
-  | KLeafList x -> "T" ^ b x
+  | KLeaf (x, t) -> "f" ^ b x ^ "~" ^ str_of_type t
+  | KLeafList (x, t) -> "T" ^ b x ^ "~" ^ str_of_type t
   | KList (x, y) -> "L" ^ b x ^ b y
 
 (* records: depth, module, name, kind, value *)
@@ -90,6 +110,14 @@ let answer (s : snode list) (t : dnode list) (q : string) : string =
           | FRes (EPartial p) -> "I" ^ pos_str p
           | FRes ENone -> "N" in
         "F:" ^ pf ^ ":" ^ r
+    | ["Y"; ph] ->
+        (* what C15 demands of lyd_find_xpath() on such a path: the node lyd_find_path() finds, nothing else
+           (asked for printed paths only; lyd_find_xpath itself is not modelled) *)
+        (match find_path s t (unhex ph) with
+         | FErr e -> "Y:E" ^ string_of_int (int_of_n e)
+         | FRes (EFound p) -> "Y:" ^ pos_str p
+         | FRes _ -> "Y:-")
+    | ["G"; _; _] -> "G:ok"      (* after lyd_change_term() the new path of the node still identifies it (checked by the driver) *)
     | ["N"; ph; vh] ->
         (match new_path s [] (unhex ph) (unhex vh) with
          | NErr e -> "N:E" ^ string_of_int (int_of_n e)
